@@ -1189,7 +1189,18 @@ compact_cases(const struct cfg *c, int vfirst, int vstep, const char *outcome_ok
         int orders = 0;
         bool ok = do_reset(&in, FILLS[v % 3]) && do_store(&in, c, image, &orders);
         PersistentAccess rc;
-        if (ok) {
+        /* audit 6: a part step is an input of the API only if the parameter types
+         * of the prototype compiled against can hold its offset and length (with
+         * 16-bit parameters 65536 would arrive as 0): such a step is left out, the
+         * rest of the sequence runs */
+        const struct part_limits pls = part_limits(0), plf = part_limits(1);
+        const bool fetch_rep = off <= plf.offmax && len <= plf.lenmax;
+        const bool store_rep = off <= pls.offmax && len <= pls.lenmax;
+        const bool probe_rep = c->N <= pls.offmax && 1 <= pls.lenmax;
+        if (!fetch_rep || !store_rep || !probe_rep)
+            mc_log("part steps left out (not representable in the prototype): fetch_part=%d store_part=%d "
+                   "refused-probe=%d", !fetch_rep, !store_rep, !probe_rep);
+        if (ok && fetch_rep) {
             unsigned char *dst = mc_exact(len);
             memset(dst, 0xee, len);
             ok = run_op(&in, OP_FETCH_PART, dst, off, len, 0, &rc);
@@ -1204,7 +1215,7 @@ compact_cases(const struct cfg *c, int vfirst, int vstep, const char *outcome_ok
             }
             free(dst);
         }
-        if (ok) {
+        if (ok && store_rep) {
             memcpy(expect, image, c->N);
             memcpy(expect + off, other + off, len);
             unsigned char *src = mc_exact_copy(other + off, len);
@@ -1218,7 +1229,7 @@ compact_cases(const struct cfg *c, int vfirst, int vstep, const char *outcome_ok
             free(before);
             ok = ok && check_stored(&in, c, expect, &orders);
         }
-        if (ok) {
+        if (ok && probe_rep) {
             unsigned char *snap = mc_exact_copy(M.img, M.size);
             unsigned char *buf = mc_exact(1);
             buf[0] = 0x77;
@@ -1861,7 +1872,7 @@ main(int argc, char **argv)
                  wide ? "(8: the prototypes take 64-bit offsets and lengths)"
                       : "only as far as the prototypes' parameter types represent them");
     }
-    char bound[2600];
+    char bound[2800];
     snprintf(bound, sizeof bound,
              "data sizes 1..%zu%s x placements {0,1,7,100,straddling 2^16,straddling 2^31,ending at 2^32} x "
              "{default sum16, CRC-16/ARC, sum32} x both configuration orders x auxiliary buffer {none, 0..N+1} x "
@@ -1869,7 +1880,8 @@ main(int argc, char **argv)
              "buffers {none,0..N+1} x {CRC-16/ARC by content, 16-bit and 32-bit sum by initial value} x 2 images x 8 "
              "special checksum values, default sum with 257/258 octets x 9 buffers x 3 placements; L: sizes {255,256,257,"
              "65535,65536,65537} x placements {0, ending at 2^32} x 3 checksums x buffers {none,7,255,256,65536,N+1} x 2 "
-             "compact sequences (parts at the last octet and over the second half); H: sizes 1..%zu x "
+             "compact sequences (parts at the last octet and over the second half; a part step whose offset or length the "
+             "prototypes' parameter types cannot hold is left out); H: sizes 1..%zu x "
              "placements %s x every call sequence of length <= %d over {init,place(A),place(B),sum16,sum32} after "
              "the first init (%d histories) x object prefill {00,a5} x buffers %s x 4 compact sequences; X: sizes 1..%zu "
              "(same grid, buffers 1..N+1) x full store and every store_part (offset,len>=1) x source block directly in "
